@@ -18,10 +18,11 @@ Record flags := {
   fixed_P7 : bool;          (* untrack re-materialises hard links into the cache too *)
   fixed_P8 : bool;          (* untrack skips targets that are not in the workspace / directory records *)
   fixed_mv_absent : bool;   (* move of a copy-method file whose source is absent rechecks the destination *)
-  fixed_P45 : bool          (* move refuses to remove (not rename) a source whose content has no cache object *)
+  fixed_P45 : bool;         (* move refuses to remove (not rename) a source whose content has no cache object *)
+  fixed_P47 : bool          (* untrack leaves a link whose object is not in the cache as it is instead of panicking *)
 }.
-Definition as_is : flags := {| fixed_P7 := false; fixed_P8 := false; fixed_mv_absent := false; fixed_P45 := false |}.
-Definition all_fixed : flags := {| fixed_P7 := true; fixed_P8 := true; fixed_mv_absent := true; fixed_P45 := true |}.
+Definition as_is : flags := {| fixed_P7 := false; fixed_P8 := false; fixed_mv_absent := false; fixed_P45 := false; fixed_P47 := false |}.
+Definition all_fixed : flags := {| fixed_P7 := true; fixed_P8 := true; fixed_mv_absent := true; fixed_P45 := true; fixed_P47 := true |}.
 
 Record xrepo := { base : repo; dirs : list path }.
 Definition xinit (a : algo) (m : method) (t : tob) : xrepo := {| base := init_repo a m t; dirs := [] |}.
@@ -378,6 +379,8 @@ Fixpoint materialise (fl : flags) (f : fsys) (tg : list (N * frec)) : fsys * out
               end
           | Some d =>
               if needs_copy fl f en (cache_addr p d) then
+                if fixed_P47 fl && negb (obj_exists f (cache_addr p d)) then materialise fl f t   (* nothing to copy from *)
+                else
                 let '(f1, oc) := recheck_from_cache f p (cache_addr p d) Copy in
                 match oc with Ok => materialise fl f1 t | _ => (f1, Panic) end
               else materialise fl f t
